@@ -133,6 +133,25 @@ class FromGraph(ArrayExpr):
             return candidates[0]
         return None
 
+    def _validate_block_shapes(self):
+        """Raise when concrete blocks of the layer contradict our chunks.
+
+        Used by the persist rebuild: a rewrite applied outside our control may
+        keep the number of blocks and move their boundaries, and data of
+        another shape must not be passed off under our keys.
+        """
+        dsk = self.operand("layer")
+        for block_id in product(*(range(len(c)) for c in self.chunks)):
+            expected = tuple(c[i] for c, i in zip(self.chunks, block_id))
+            if any(not isinstance(e, int) and math.isnan(e) for e in expected):
+                continue
+            shape = getattr(dsk.get(self._find_layer_key(dsk, block_id)), "shape", None)
+            if isinstance(shape, tuple) and len(shape) == len(expected) and shape != expected:
+                raise ValueError(
+                    f"from_graph found a block of shape {shape} for output block {block_id}, "
+                    f"which is advertised with shape {expected}. " + self._OUTSIDE_OPTIMIZATION_HINT
+                )
+
     def _layer(self):
         from dask import istask
 
@@ -152,21 +171,6 @@ class FromGraph(ArrayExpr):
             if isinstance(value, GraphNode) or istask(value):
                 dsk[out_key] = Alias(out_key, layer_key)
             else:
-                # A rewrite may keep the number of blocks and move their
-                # boundaries: concrete data of another shape than the block we
-                # advertise must not be passed off under our key.
-                shape = getattr(value, "shape", None)
-                expected = tuple(c[i] for c, i in zip(self.chunks, block_id))
-                if (
-                    isinstance(shape, tuple)
-                    and len(shape) == len(expected)
-                    and all(isinstance(e, int) or not math.isnan(e) for e in expected)
-                    and shape != expected
-                ):
-                    raise ValueError(
-                        f"from_graph found a block of shape {shape} for output block {block_id}, "
-                        f"which is advertised with shape {expected}. " + self._OUTSIDE_OPTIMIZATION_HINT
-                    )
                 dsk[out_key] = value
                 del dsk[layer_key]
         return dsk
@@ -234,3 +238,12 @@ def from_graph(layer, _meta, chunks, keys, name, dependencies=(), rename=None):
             _dependencies=tuple(expr_dependencies),
         )
     )
+
+
+def from_persisted(layer, *args, **kwargs):
+    """``from_graph`` for the rebuild after a persist: the layer holds the
+    computed blocks of the collection being rebuilt, so their shapes are
+    checked against the chunks it advertises."""
+    arr = from_graph(layer, *args, **kwargs)
+    arr.expr._validate_block_shapes()
+    return arr
